@@ -941,13 +941,8 @@ class ArrayType(Type):
                 encoder.append_bit(0)
             else:
                 encoder.append_bit(1)
-                encoder.align()
-                encoder.append_length_determinant(len(data))
 
-                for entry in data:
-                    self.element_type.encode(entry, encoder)
-
-                return
+                return self.encode_unbound(data, encoder)
 
         if self.number_of_bits is None:
             return self.encode_unbound(data, encoder)
@@ -974,12 +969,9 @@ class ArrayType(Type):
             bit = decoder.read_bit()
 
             if bit:
-                decoder.align()
-                length = decoder.read_length_determinant()
+                return self.decode_unbound(decoder)
 
-        if length is not None:
-            pass
-        elif self.number_of_bits is None:
+        if self.number_of_bits is None:
             return self.decode_unbound(decoder)
         elif self.minimum != self.maximum:
             length = decoder.read_constrained_whole_number(self.minimum,
@@ -1295,11 +1287,8 @@ class OctetString(Type):
                 encoder.append_bit(0)
             else:
                 encoder.append_bit(1)
-                encoder.align()
-                encoder.append_length_determinant(len(data))
-                encoder.append_bytes(data)
 
-                return
+                return self.encode_unbound(data, encoder)
 
         if self.number_of_bits is None:
             return self.encode_unbound(data, encoder)
@@ -1330,10 +1319,7 @@ class OctetString(Type):
             bit = decoder.read_bit()
 
             if bit:
-                decoder.align()
-                length = decoder.read_length_determinant()
-
-                return decoder.read_bytes(length)
+                return self.decode_unbound(decoder)
 
         if self.number_of_bits is None:
             return self.decode_unbound(decoder)
